@@ -133,14 +133,14 @@ static void report(const QCtx& x, const std::string& query, const std::string& c
                  case_replay(c) + extra_replay);
 }
 
-static const int64_t DEPTHS[] = {0, 1, 2, -1};
+static const int64_t DEPTHS[] = {0, 1, 2, -1, -3};   // every negative depth removes the limit
 struct Filt { bool on; Tag tag; const char* name; };
 static const Filt FILTS[] = {{false, 0, "none"}, {true, TAG_A, "present_tag"}, {true, TAG_ABSENT, "absent_tag"}, {true, TAG_C, "label_tag"}};
 
 // all hierarchy queries on `cell`, judged against the harness's denotation of `model_cell` (normally the same cell)
 static bool query_all(const QCtx& x, Cell* cell, const Cell* model_cell, bool full_only) {
     bool ok = true;
-    for (int di = 0; di < 4; di++) {
+    for (int di = 0; di < 5; di++) {
         int64_t depth = DEPTHS[di];
         if (full_only && depth != -1) continue;
         for (int fi = 0; fi < 4; fi++) {
@@ -353,7 +353,7 @@ int main(int argc, char** argv) {
     }
     auto body = [&](int64_t i) { run_case(cases[i]); };
     bool ok = parallel_for(run, (int64_t)cases.size(), body, [&](int64_t i) { return case_json(cases[i]); }, [&](int64_t i) { return case_replay(cases[i]); }, PFOptions{60, "hier.crash", true});
-    run.sample("hier", jobj({{"hierarchy", case_json(cases[cases.size() / 3])}, {"queries", jstr("get_polygons/get_flexpaths/get_robustpaths/get_labels x apply_repetitions x include_paths x depth {0,1,2,-1} x filter {none,present,absent,label tag} on TOP and MID; flatten(F/T) of TOP or MID; deep copy + mutate")}}));
+    run.sample("hier", jobj({{"hierarchy", case_json(cases[cases.size() / 3])}, {"queries", jstr("get_polygons/get_flexpaths/get_robustpaths/get_labels x apply_repetitions x include_paths x depth {0,1,2,-1,-3} x filter {none,present,absent,label tag} on TOP and MID; flatten(F/T) of TOP or MID; deep copy + mutate")}}));
     run.bound("hier", fmt("%zu leaf contents x %zu reference placements per level (%zu hierarchies)", sizeof(leaves) / sizeof(int), specs.size(), cases.size()), ok, (int64_t)cases.size());
 
     // histories on a reduced set
